@@ -150,6 +150,18 @@ func init() {
 				}
 				cls += "/macros"
 			}
+			if r.Intn(5) == 0 {
+				// $EDITOR is a program: it empties the file (the way to give up an edit), leaves it, changes it, or fails;
+				// edit-and-execute-command and vi-edit-command-line run it on buffers of every kind
+				sp.Editor = []string{"empty", "empty", "keep", "append", "fail"}[r.Intn(5)]
+				sp.Binds = append(sp.Binds, Bind{Seq: `\C-x\C-zE`, Cmd: "edit-and-execute-command"}, Bind{Seq: `\C-x\C-zV`, Cmd: "vi-edit-command-line"})
+				for i := range script {
+					if r.Intn(6) == 0 {
+						script[i] = []string{"\x18\x1aE", "\x18\x1aV"}[r.Intn(2)]
+					}
+				}
+				cls += "/editor=" + sp.Editor
+			}
 			// A capped argument still asks for ten thousand repetitions, which multiply (yank, kill, yank): one
 			// such argument per session, none where macros repeat the script, is work that ends within the watchdog.
 			big := 1
